@@ -49,7 +49,7 @@ for d in sorted(glob.glob(os.path.join(V, 'seeded', 'C*-*'))):
     name = os.path.basename(d)
     note = m.get('history', '')
     tot += 1
-    missed_first = note.startswith('missed') or note.startswith('not caught')
+    missed_first = note.startswith('missed') or note.startswith('not caught') or note.startswith('arrived')
     first += not missed_first
     if name.endswith('-3'):
         r2tot += 1
